@@ -130,28 +130,3 @@ fn main() {
     });
 }
 
-/// Runs the cases on a few worker threads (each case is a function of its index and its
-/// own generator state only) and returns the results in index order.
-fn par_cases<T: Send>(ctx: &jjv::Ctx, f: impl Fn(usize, jjv::Rng) -> T + Sync) -> Vec<(usize, T)> {
-    let indices = ctx.indices();
-    let workers = 8usize.min(indices.len().max(1));
-    let results = std::sync::Mutex::new(Vec::new());
-    std::thread::scope(|scope| {
-        for k in 0..workers {
-            let indices = &indices;
-            let results = &results;
-            let f = &f;
-            scope.spawn(move || {
-                for (n, &i) in indices.iter().enumerate() {
-                    if n % workers == k {
-                        let out = f(i, ctx.rng(i));
-                        results.lock().unwrap().push((i, out));
-                    }
-                }
-            });
-        }
-    });
-    let mut v = results.into_inner().unwrap();
-    v.sort_by_key(|(i, _)| *i);
-    v
-}
